@@ -927,6 +927,145 @@ def finish_then_stop_race(res, trial):
                 it.stop()
 
 
+def stopped_in_the_middle_of_its_own_macrostep(res, engine, blocking):
+    """A child tells its parent something with sendParent; the parent answers at once with stopChild -
+    re-entrantly, while the child is still in the middle of the action list that sent it.  What the
+    child's remaining actions arm (a delayed sendParent) or spawn (a grandchild, with a systemId) after
+    that must be released as well: nothing of it may reach the parent or stay alive."""
+    got, glog = [], []
+    helper = create_machine({"id": "helper", "initial": "on", "states": {"on": {"entry": ["up"], "on": {
+        "PING": {"actions": ["hping"]}}}}}, logic=MachineLogic(actions={
+            "up": lambda i, c, e, a: glog.append(("up", i)), "hping": lambda i, c, e, a: glog.append(("ping", i))}))
+    spawn = ({"type": "spawn_blocking_helper", "params": {"id": "h", "systemId": "hsys"}} if blocking else
+             {"type": "xstate.spawnChild", "params": {"src": "helper", "id": "h", "systemId": "hsys"}})
+    child = create_machine({"id": "kid", "initial": "idle", "states": {"idle": {"on": {"FINISH": {"actions": [
+        {"type": "xstate.sendParent", "params": {"event": "RELEASE_ME"}},
+        {"type": "xstate.sendParent", "params": {"event": "LATE", "delay": 120}},
+        spawn]}}}}}, logic=MachineLogic(services={"helper": helper}))
+    parent_cfg = {"id": "p", "initial": "a", "states": {"a": {
+        "entry": [{"type": "xstate.spawnChild", "params": {"src": "kid", "id": "w", "systemId": "wsys"}}],
+        "on": {"GO": {"actions": [{"type": "xstate.sendTo", "params": {"to": "w", "event": "FINISH"}}]},
+               "RELEASE_ME": {"actions": ["note", {"type": "xstate.stopChild", "params": {"id": "w"}}]},
+               "LATE": {"actions": ["note"]}}}}}
+    pm = create_machine(parent_cfg, logic=MachineLogic(
+        actions={"note": lambda i, c, e, a: got.append(e.type)}, services={"kid": child}))
+    out = {}
+    if engine == "sync":
+        it = SyncInterpreter(pm).start()
+        try:
+            t1 = time.time()
+            while time.time() - t1 < 3.0 and not [a for a in it._actors.values() if a.status == "running"]:
+                time.sleep(0.002)
+            # FINISH goes to the child directly, from this thread: the child's macrostep runs here, its
+            # sendParent finds the parent idle, and the parent's stopChild runs inside that macrostep
+            kid_ = it.system.get("wsys")
+            if kid_ is None:
+                res.count("stopped-mid-macrostep.not-set-up")
+                return
+            kid_.send("FINISH")
+            time.sleep(0.45)
+            out["received"] = list(got)
+            out["hsys"] = getattr(it.system.get("hsys"), "status", None)
+            out["helpers"] = sorted({i.status for k, i in glog})
+            out["threads"] = [t.name for t in observe.engine_threads()]
+        finally:
+            it.stop()
+    else:
+        async def body():
+            it2 = Interpreter(pm)
+            await it2.start()
+            await drain(it2)
+            for _ in range(10):
+                await asyncio.sleep(0)
+            kid_ = it2.system.get("wsys")
+            if kid_ is None:
+                return
+            await kid_.send("FINISH")
+            await drain(it2)
+            await asyncio.sleep(0.3)
+            await drain(it2)
+            out["received"] = list(got)
+            out["hsys"] = getattr(it2.system.get("hsys"), "status", None)
+            out["helpers"] = sorted({i.status for k, i in glog})
+            await it2.stop()
+        observe.run_virtual(body)
+    res.evaluations += 1
+    res.count("stopped-mid-macrostep.scenarios." + engine)
+    res.hashes.add(h(["mid-macrostep", engine, blocking]))
+    wit = {"engine": engine, "blocking_spawn": blocking, "observed": out}
+    if "RELEASE_ME" not in out.get("received", []):
+        res.count("stopped-mid-macrostep.not-set-up")
+        return
+    if "LATE" in out["received"]:
+        res.violation("C15:delayed-send-armed-after-stopChild-was-delivered/%s" % engine,
+                      "the parent received %s: the delayed sendParent armed by the stopped child's remaining "
+                      "actions still fired" % out["received"], wit)
+    elif out["hsys"] not in (None, "stopped") or any(st == "running" for st in out["helpers"]):
+        res.violation("C15:actor-spawned-by-a-stopped-child-stays-alive/%s" % engine,
+                      "the grandchild spawned by the stopped child's remaining actions: statuses %s, systemId "
+                      "still resolves to a %s actor" % (out["helpers"], out["hsys"]), wit)
+
+
+def stop_while_start_is_spawning(res, turns):
+    """(async) The parent's initial entry spawns a child whose own entry action is slow (awaits).
+    stop() arrives while start() is suspended in there: the child is the parent's child from the moment
+    it is spawned - it is stopped, unregistered and handles nothing afterwards."""
+    out = {}
+
+    async def body():
+        gate = asyncio.Event()
+        klog = []
+
+        async def slow_entry(i, c, e, a):
+            klog.append(("entry", i))
+            await gate.wait()
+        child = create_machine({"id": "kid", "initial": "s", "states": {"s": {
+            "entry": ["slow_entry"], "on": {"PING": {"actions": ["pong"]}}}}}, logic=MachineLogic(actions={
+                "slow_entry": slow_entry, "pong": lambda i, c, e, a: klog.append(("pong", i))}))
+        pm = create_machine({"id": "p", "initial": "a", "states": {"a": {"entry": [
+            {"type": "xstate.spawnChild", "params": {"src": "kid", "id": "w", "systemId": "wsys"}}]}}},
+            logic=MachineLogic(services={"kid": child}))
+        it = Interpreter(pm)
+        starter = asyncio.ensure_future(it.start())
+        for _ in range(turns):
+            await asyncio.sleep(0)
+        out["spawn_suspended"] = bool(klog) and not starter.done()
+        await it.stop()
+        gate.set()
+        for _ in range(30):
+            await asyncio.sleep(0)
+        try:
+            await asyncio.wait_for(starter, 1.0)
+        except BaseException:  # noqa: BLE001
+            pass
+        kid = klog[0][1] if klog else None
+        out["kid_status"] = getattr(kid, "status", None)
+        out["wsys"] = getattr(it.system.get("wsys"), "status", None)
+        if kid is not None:
+            try:
+                await kid.send("PING")
+            except Exception:  # noqa: BLE001
+                pass
+            for _ in range(30):
+                await asyncio.sleep(0)
+        out["pongs"] = len([1 for k, _ in klog if k == "pong"])
+        out["parent_status"] = it.status
+        if kid is not None and kid.status != "stopped":
+            await kid.stop()
+    observe.run_virtual(body)
+    res.evaluations += 1
+    res.count("stop-while-start-spawns.scenarios")
+    res.hashes.add(h(["stop-during-start-spawn", turns]))
+    if not out.get("spawn_suspended"):
+        res.count("stop-while-start-spawns.not-set-up")
+        return
+    if out["kid_status"] != "stopped" or out["wsys"] is not None or out["pongs"]:
+        res.violation("C15:child-spawned-during-start-survives-stop/async",
+                      "stop() while start() was suspended in the spawned child's entry action: child status %s, "
+                      "systemId resolves to %s, events handled afterwards %d" % (
+                          out["kid_status"], out["wsys"], out["pongs"]), {"turns": turns, "observed": out})
+
+
 def run_chunk(spec):
     observe.quiet_logs()
     res = Result()
@@ -948,6 +1087,18 @@ def run_chunk(spec):
     for t in range(3 if tier == "quick" else 40):
         wd.arm("finish race %d" % t)
         finish_then_stop_race(res, ci * 1000 + t)
+    k = 0
+    for engine in ("sync", "async"):
+        for blocking in (True, False):
+            if k % NCHUNKS == ci:
+                wd.arm("stopped mid macrostep %s" % engine)
+                stopped_in_the_middle_of_its_own_macrostep(res, engine, blocking)
+            k += 1
+    for turns in (2, 3, 5, 8):
+        if k % NCHUNKS == ci:
+            wd.arm("stop while start spawns")
+            stop_while_start_is_spawning(res, turns)
+        k += 1
     wd.disarm()
     return res.to_json()
 
@@ -956,7 +1107,9 @@ def quota(counters, tier):
     out = []
     for k in ("scripts.async", "scripts.sync", "commands.SPAWN", "commands.SENDTO",
               "commands.STOPCHILD", "commands.CANCEL", "commands.FWDMSG", "commands.SENDPARENT",
-              "commands.ESC", "deliveries.expected", "drops.expected", "teardowns", "finish-race.trials"):
+              "commands.ESC", "deliveries.expected", "drops.expected", "teardowns", "finish-race.trials",
+              "stopped-mid-macrostep.scenarios.sync", "stopped-mid-macrostep.scenarios.async",
+              "stop-while-start-spawns.scenarios"):
         if counters.get(k, 0) == 0:
             out.append("monitor-never-reached:" + k)
     return out
